@@ -30,6 +30,8 @@ bool integerFitsKeyword(fitsfile* fits, const char* key, uint32_t& result){
 	
 std::vector<uint32_t> readOrder(fitsfile* fits, uint32_t ndim){
 	int error = 0;
+	if (ndim == 0) //nothing to store an order in
+		throw std::runtime_error("A spline table needs at least one dimension");
 	std::vector<uint32_t> order(ndim);
 	//See if there is a single order value
 	if (!integerFitsKeyword(fits, "ORDER", order[0]))
